@@ -2,7 +2,11 @@
 
 * ``generate`` runs the CURRENT generator (asn1tools.source.c.generate) on an ASN.1 text;
   ``gcc_compile`` builds the output with ``gcc -std=c99 -Wall -Wextra -c`` (errors fatal,
-  warnings recorded); ``Unit`` bundles text, parsed spec, header/source and the cfront Program.
+  warnings recorded); ``Unit`` bundles text, parsed spec, header/source, the gcc-built shared
+  object (``Native``, ctypes) and the cfront Program; it raises ``GeneratorError(kind, text)``
+  when the generator rejects ('rejected': asn1tools.Error), crashes ('foreign') or gcc refuses the
+  output ('compile').  ``prebuild`` does the sub-process work (generator, gcc, gcc -E) for many
+  templates in parallel before the runner forks its workers (``build_bundle`` for one).
 * ``Mapper`` relates a C struct object tree to ASN.1 values.  It walks the PARSED
   specification (lib.symvalue.Spec) and the object tree that cfront built from the generated
   HEADER in parallel -- the generator's own bookkeeping is not consulted:
@@ -37,7 +41,7 @@ import z3
 sys.path.insert(0, '/repo') if '/repo' not in sys.path else None
 
 import cfront
-from cfront import Cell, StructObj, UnionObj, ArrayObj, Ptr, Val, ival, U64
+from cfront import Cell, StructObj, UnionObj, ArrayObj, Ptr
 from lib.symvalue import Spec, int_range, size_range, members_split, members_of, enum_items
 import pyfront
 from pyfront import SymBytes, SymFloatBase
